@@ -28,8 +28,11 @@ m = {"version": 1, "setup_cmd": "./setup.sh",
                "source_commits": props.HOOK_COMMITS, "add_only": True},
      "engines": [{"name": "lean4-model+correspondence", "path": "/verif/lean, /verif/harness, /verif/tools",
                   "serves_properties": [c["property_id"] for c in checks],
-                  "kind_free_text": "Lean 4 theorems over a hand-written model (lean/Rrtk), audited axioms; model tied to the code by a Rust harness vs compiled Lean driver on seeded, largely exhaustive case files, plus tables regenerated from the source"}],
+                  "kind_free_text": "Lean 4 theorems over a hand-written model (lean/Rrtk), audited axioms; model tied to the code by a Rust harness vs compiled Lean driver on seeded, largely exhaustive case files (bit-exact at Float32, several cargo feature/profile configurations), tables regenerated from the source, tie-break variants generated textually from the model, kernel-anchored known answers"}],
      "checks": checks, "not_applicable": na,
-     "notes": "See DESIGN.md. known findings: /verif/known_findings.txt. Seeded mutants: /verif/seeded/."}
+     "notes": "See DESIGN.md (§10 as built, §11 seeded defects and harmless changes). Known findings: /verif/known_findings.txt. Seeded defects: /verif/seeded/ (4 rounds, "
+              "written by independent sub-agents); harmless changes used to hunt false alarms: /verif/benign/. Every check runs the property in the debug profile, "
+              "the release profile and (where units matter) with dimension checking compiled out; when /repo's sources differ from baseline_src.sha256 the quick tier "
+              "generates cases at thorough sizes. binary32 rounding is modelled kernel-transparently (lean/Rrtk/SoftFloat.lean) and compared bit-for-bit with the hardware."}
 json.dump(m, open(os.path.join(VERIF, "MANIFEST.json"), "w"), indent=1)
 print("claimed:", [c["property_id"] for c in checks], "pending:", [x["property_id"] for x in na])
